@@ -93,7 +93,12 @@ def run(c):
         cases_b, dis_b, stats_b = rt.run_rt(c, oracle_ints, nb, kb, gen_hist=rt.flushing(hrt.gen_history),
                                             hist_kwargs={'toggles': False},
                                             label='H-runtime (bit-packed integers)', profile='rt-bits', seed_base=800)
-        rt.decide(c, ob, dis_b, oracle=oracle_ints, hist_kwargs={'toggles': False})
+        # configurations with several data stream types (event record types of the same name in different data stream
+        # types, each with its own integer sizes): every tracing function must encode with its own field types
+        cases_m, dis_m, stats_m = rt.run_rt(c, oracle_ints, max(4, nb // 2), kb, gen_hist=rt.flushing(hrt.gen_history),
+                                            hist_kwargs={'toggles': False}, cfg_filter=lambda ir: len(ir['dsts']) >= 2,
+                                            label='H-runtime (several data stream types)', profile='layout', seed_base=850)
+        rt.decide(c, ob, dis_b + dis_m, oracle=oracle_ints, hist_kwargs={'toggles': False})
     if c.tier == 'thorough' and ob['ok']:
         ok, log = c.leanchecker(['BVM.Props.C08'])
         if not ok:
